@@ -152,10 +152,38 @@ class Kit(object):
     def MK(self, kind, *a):
         return make_value(self, kind, *a)
 
+    def DECO(self, tag):
+        """decorator factory: logs creation and application"""
+        self.tick()
+        self.log.append(("mkdeco", tag))
+
+        def deco(f):
+            self.tick()
+            self.log.append(("apply", tag))
+            return f
+        return deco
+
     def namespace(self):
         ns = {"__name__": "__main__"}
         for n in self.NAMES:
             ns[n] = getattr(self, n)
+        ns["DECO"] = self.DECO
+        kit = self
+
+        class Bs(object):
+            pass
+
+        class Bs2(object):
+            pass
+
+        class Mt(type):
+            pass
+
+        class Q(object):
+            def __init_subclass__(cls, **kw):
+                kit.log.append(("init_subclass", cls.__name__, sorted(kw.items())))
+
+        ns.update(Bs=Bs, Bs2=Bs2, Mt=Mt, Q=Q)
         return ns
 
 
@@ -195,7 +223,8 @@ class OneShot(object):
         self.kit, self.name, self.data, self.k = kit, name, list(data), 0
 
     def __iter__(self):
-        self.kit.log.append(("iter", self.name))
+        # not logged: how often CPython calls iter() on something that already is an iterator
+        # (twice for a starred unpack) is an implementation detail, not a store
         return self
 
     def __next__(self):
